@@ -149,6 +149,14 @@ def check_emit(ctx, e, sz):
         else:
             want = expected(op, e, fv, gv)
             results = [(lab, r, want) for lab, r in perform(op, e, f, g, sz)]
+            if op == "div":
+                # tiny but non-zero divisors (marginals of models with a small total, rare separator values) are still divisors;
+                # a divisor of exactly 0 gives 0 (the library's declared 0/0 convention)
+                tiny = Factor(g.domain, g.values * 1e-11)
+                results.append(("f/(1e-11*g)", f / tiny, expected(op, e, fv, [x * 1e-11 for x in gv])))
+                gz = g.values.copy(); gz.reshape(-1)[0] = 0.0
+                wz = [0.0 if j == 1 else fv[i - 1] / gv[j - 1] for i, j in e["map"]]
+                results.append(("f/g with one zero divisor cell", f / Factor(g.domain, gz), wz))
             exact = op in EXACT
     except Exception as ex:
         ctx.violation("factor operation raised %r" % ex, info, {"kind": "crash", "op": op})
